@@ -4,9 +4,9 @@ CONSTANTS
   MaxU = 2147483647
   MaxS = 2147483647
   Promote = FALSE
-  MaxDepth = 5
+  MaxDepth = 3
   MinSize = 10
-  Sample = 23
+  Sample = 151
 VIEW View
 INVARIANTS InvOIUsd InvOITokens InvCollateral InvRemoved
 CHECK_DEADLOCK FALSE
